@@ -298,11 +298,43 @@ func c08(c *Ctx) {
 	isAvgSink := func(cc ssa.CallInstruction) bool {
 		return ir.IsInvoke(cc, PkgSensors, "Sensor", "SetMovingAvg") || ir.IsFunc(cc, PkgUtil, "UpdateSimpleMovingAvg")
 	}
+	// pure forwarding wrappers of the read (`return s.GetValue()`): their call sites are the reads to judge
+	readWrappers := map[*ssa.Function]bool{}
+	isRead := func(cc ssa.CallInstruction) bool {
+		if ir.IsInvoke(cc, PkgSensors, "Sensor", "GetValue") {
+			return true
+		}
+		st := ir.Callee(cc).Static
+		return st != nil && readWrappers[st]
+	}
+	for changed := true; changed; {
+		changed = false
+		for _, fn := range monitorFns {
+			if readWrappers[fn] || len(fn.Blocks) == 0 {
+				continue
+			}
+			rets := ir.Returns(fn)
+			forwards := len(rets) > 0
+			for _, rt := range rets {
+				tc := tailCallOf(rt, errResultIndex(fn))
+				if tc == nil || !isRead(tc) {
+					forwards = false
+				}
+			}
+			if forwards {
+				readWrappers[fn] = true
+				changed = true
+			}
+		}
+	}
 	nskip := 0
 	for _, fn := range monitorFns {
+		if readWrappers[fn] {
+			continue
+		}
 		Calls(fn, func(cc ssa.CallInstruction) {
 			call, ok := cc.(*ssa.Call)
-			if !ok || !ir.IsInvoke(cc, PkgSensors, "Sensor", "GetValue") {
+			if !ok || !isRead(cc) {
 				return
 			}
 			nskip++
